@@ -49,6 +49,11 @@ def check(ctx, report):
     # algorithm names of the KEXINIT name-lists are matched exactly (RFC 4251 6: names are case-sensitive); shared with C10.R10
     from .c10 import registry_names_exact
     registry_names_exact(ctx, report, RULE='C07.R14')
+    # what a message or certificate holds twice is composed twice (a repeated name of a name-list, a repeated network of a
+    # source-address option): no de-duplication on the writing side; rule shared with C10.R16
+    from .c10 import no_item_collapse
+    no_item_collapse(ctx, report, RULE='C07.R16', only=lambda f: f.module.relpath.startswith(('cryptoparser/ssh/', 'cryptoparser/common/')),
+                     title='SSH composers write every item of a stored list: no de-duplication through a set / mapping or a membership test')
     language_tags(ctx, report)
     report.rule('C07.R8', 'name-lists: split at commas, order kept, unknown names preserved one by one')
     from ..textlists import string_array_table
